@@ -332,7 +332,19 @@ def native_replay(o=None, ntrials=300):
                 mid = sorted(its)[1:-1]
                 rng.shuffle(mid)
                 its = [min(its)] + mid + [max(its)]
-            data = {'it': list(its), 't': [float(i) for i in its], 'a': [np.full((2, 2), 10.0 * i + 1) for i in its],
+            # non-constant arrays in varying memory layouts (C, Fortran order, transposed views, strided views): the stored
+            # dataset is the logical array, whatever its strides
+            def arr_a(i):
+                base = (10.0 * i + 1) + np.arange(6).reshape(2, 3) * 0.01
+                how = rng.choice(['C', 'F', 'T', 'S', 'C'])
+                if how == 'F':
+                    return np.asfortranarray(base)
+                if how == 'T':
+                    return np.ascontiguousarray(base.T).T
+                if how == 'S':
+                    return np.repeat(base, 2, axis=1)[:, ::2]
+                return base
+            data = {'it': list(its), 't': [float(i) for i in its], 'a': [arr_a(i) for i in its],
                     'b': [np.full((2,), 10.0 * i + 2) for i in its]}
             sel = rng.sample(its, rng.randint(1, nd))
             vs = rng.choice([[], ['a'], ['a', 'b']])
@@ -347,6 +359,12 @@ def native_replay(o=None, ntrials=300):
             for j, i in enumerate(sorted(set(its))):
                 exp = (10.0 * i + 1) if (i in sel and rl_s == rl_r) else None
                 got = res['a'][j]
+                if exp is not None and got is not None and not np.array_equal(np.asarray(got), (10.0 * i + 1) + np.arange(6).reshape(2, 3) * 0.01):
+                    lines.append(f'data its {its}, saved it={sel} vars={vs_before} rl={rl_s}: the array read back for a at it={i} is {np.asarray(got).tolist()}, '
+                                 f'saved {((10.0 * i + 1) + np.arange(6).reshape(2, 3) * 0.01).tolist()} (memory layout of the saved array: '
+                                 f'C-contiguous={data["a"][its.index(i)].flags["C_CONTIGUOUS"]})')
+                    bad = True
+                    break
                 if (exp is None) != (got is None) or (exp is not None and float(np.ravel(got)[0]) != exp):
                     lines.append(f'data its {its}, saved it={sel} vars={vs_before} rl={rl_s} datapath slash={slash}; read it={sorted(set(its))} rl={rl_r}: '
                                  f'a at it={i} is {None if got is None else float(np.ravel(got)[0])}, expected {exp}')
